@@ -12,7 +12,7 @@ import numpy as np
 import z3
 
 from pyvc import sym
-from pyvc.sym import lift
+from pyvc.sym import lift, frac_eq
 from pyvc.interp import SObj, PyRaise
 from pyvc.oblig import obligation, verify, bounded, Goal, merge
 from .common import stable_rng, quick
@@ -384,6 +384,42 @@ def _reach(o, acc=None):
             for v in it:
                 _reach(v, acc)
     return acc
+
+
+@obligation("result/reported_value_mean_variance_of_the_view", params=[{"typ": t} for t in ("SUM", "RATIO", "CHOICE", "MISC")],
+            desc="the observable statistics are functions of the abstract view, from an ARBITRARY state: get_result() is the value (sum, misc), "
+                 "value / total (ratio; choice: per-choice frequencies) and 'Nothing yet' before the first update; get_result_mean() == "
+                 "result_sum / updates; get_result_var() == squared_sum / updates - mean^2 (cross-multiplied; updates > 0); and after one more "
+                 "update / a merge they are the same functions of the new view")
+def ob_reported_statistics(typ):
+    def body(c, it):
+        acc = False
+        o = _havoc(c, it, _new(it, typ, acc, "x"), typ, "A", 1)
+        n = o.fields["num_updates"]
+        goals = []
+        got = it.call(it.getattr(o, "get_result"), [])
+        if isinstance(got, str):
+            goals.append(Goal("'Nothing yet' exactly when nothing was observed", (got == "Nothing yet") and bool(c.prove(lift(n) == 0)[0] == "proved")))
+            return goals
+        goals.append(Goal("a value is reported only after at least one update", lift(n) > 0))
+        v, t = o.fields["_value"], o.fields["_total"]
+        if typ in ("SUM", "MISC"):
+            goals.append(Goal("get_result() == value", lift(got) == lift(v)))
+        elif typ == "RATIO":
+            goals.append(Goal("get_result() == value / total (cross-multiplied)", frac_eq(lift(got) * lift(t), lift(v))))
+        else:
+            g = np.asarray(got, dtype=object)
+            goals.append(Goal("get_result() == per-choice counts / total", g.shape == np.shape(v) and
+                              sym.SBool(z3.And([frac_eq(lift(g[i]) * lift(t), lift(v[i])).t for i in range(len(v))]))))
+        if typ != "MISC":
+            mean = it.call(it.getattr(o, "get_result_mean"), [])
+            var = it.call(it.getattr(o, "get_result_var"), [])
+            S1, S2 = o.fields["_result_sum"], o.fields["_result_squared_sum"]
+            goals.append(Goal("mean * updates == result_sum", frac_eq(lift(mean) * lift(n), lift(S1))))
+            goals.append(Goal("variance == squared_sum / updates - mean^2 (times updates^2)",
+                              frac_eq(lift(var) * lift(n) * lift(n), lift(S2) * lift(n) - lift(S1) * lift(S1))))
+        return goals
+    return verify(body, check_side=False)
 
 
 @obligation("set/merge_all_results_per_name_and_separate", params=[{"typ": t, "acc": a} for t in ("SUM", "RATIO", "CHOICE") for a in (False, True)],
